@@ -25,8 +25,10 @@ def cell_op(ctx, op, x, y):
     return f(ctx.nparray([x]), ctx.nparray([y])).tolist()[0]
 
 
-def mk_operand(ctx, tag, dims, sizes, lkinds, dkind):
-    labels = [ctx.labels(k, n, 'l%s%s_' % (tag, d)) for d, n, k in zip(dims, sizes, lkinds)]
+def mk_operand(ctx, tag, dims, sizes, lkinds, dkind, reuse=None):
+    """reuse: {dim: labels} - dimensions that carry the very same labels as another operand (no case split on them)"""
+    reuse = reuse or {}
+    labels = [reuse[d] if d in reuse and len(reuse[d]) == n else ctx.labels(k, n, 'l%s%s_' % (tag, d)) for d, n, k in zip(dims, sizes, lkinds)]
     n = 1
     for m in sizes:
         n *= m
@@ -110,10 +112,11 @@ def _derive(ctx, a, ra, how, tag):
     return b, ra.select(sel)
 
 
-def binop(ctx, adims, asizes, bdims, bsizes, op='add', lk=None, dkind='f', prime=False, derive=None):
+def binop(ctx, adims, asizes, bdims, bsizes, op='add', lk=None, dkind='f', prime=False, derive=None, same_labels=False):
     lk = lk or {}
     a, ra = mk_operand(ctx, 'a', adims, asizes, [lk.get('a:' + d, lk.get(d, 'i')) for d in adims], dkind)
-    b, rb = mk_operand(ctx, 'b', bdims, bsizes, [lk.get('b:' + d, lk.get(d, 'i')) for d in bdims], dkind)
+    b, rb = mk_operand(ctx, 'b', bdims, bsizes, [lk.get('b:' + d, lk.get(d, 'i')) for d in bdims], dkind,
+                       reuse=dict(zip(ra.dims, ra.labels)) if same_labels else None)
     if op in ('div', 'floordiv'):
         for c in rb.cells:
             ctx.assume(c != 0)
@@ -192,6 +195,13 @@ def templates():
     add('1d-real-vs-int', 'binop', cost=1, adims=['x'], asizes=[2], bdims=['x'], bsizes=[2], lk={'a:x': 'f', 'b:x': 'i'})
     add('1d-int-data', 'binop', cost=1, adims=['x'], asizes=[2], bdims=['x'], bsizes=[2], dkind='i')
     add('1d-primed', 'binop', cost=1, adims=['x'], asizes=[2], bdims=['x'], bsizes=[2], prime=True, op='sub')
+    # three (four) shared dimensions stored in orders that differ by a rotation (not its own inverse); same labels: broadcasting by name only
+    for k, (ad, bd) in enumerate(((['x', 'y', 'z'], ['y', 'z', 'x']), (['x', 'y', 'z'], ['z', 'x', 'y']), (['x', 'y', 'z'], ['z', 'y', 'x']),
+                                  (['x', 'y', 'z', 'w'], ['w', 'x', 'y', 'z']), (['y', 'x'], ['z', 'x', 'y']))):
+        for sizes in ([2, 2, 2, 2], [2, 3, 2, 3]):
+            sz = dict(zip(['x', 'y', 'z', 'w'], sizes))
+            add('rotated-dims-%d-%s' % (k, 'x'.join(map(str, sizes[:len(ad)]))), 'binop', cost=1.5, adims=ad, asizes=[sz[d] for d in ad], bdims=bd, bsizes=[sz[d] for d in bd],
+                op='sub', same_labels=True)
     # a dimension of length 1 that only one operand has (its single label must survive), both operand orders, 0-d partner
     for k, (ad, asz, bd, bsz) in enumerate(((['x'], [2], ['x', 'z'], [2, 1]), (['x', 'z'], [2, 1], ['x'], [2]), ([], [], ['z'], [1]), (['z'], [1], [], []),
                                             (['x'], [1], ['y'], [1]), (['y', 'x'], [1, 2], ['z', 'x'], [1, 2]), (['x'], [2], ['z', 'x'], [1, 2]))):
